@@ -26,16 +26,16 @@ func lexPool(kind string) []lexItem {
 		}
 	}
 	if kind == "expression" {
-		add("Word", "w", "abc", "a1", "_x", "Éa", "x_y", "e", "E5", "ands", "nullable")
+		add("Word", "w", "abc", "a1", "_x", "Éa", "x_y", "e", "E5", "ands", "nullable", "Àb", "Øre", "ßa", "ñu", "öl", "þ", "ÿz", "aÿ×"[:3])
 		add("Keyword", "k", "and", "AND", "Or", "not", "Xor", "like", "IS", "in", "Null", "true", "FALSE")
 		add("Integer", "n", "0", "12", "907")
 		add("Float", "n", "1.5", "0.25", ".5", "1e5", "1.5E-3", "2e+7", "3.E2")
 		add("Quoted", "q", "'a'", "'a''b'", "''", "'x y'", "'é\nж'", "''''", "'\"'")
 		add("Word|Quoted", "q", "\"q\"", "\"a b\"")
-		add("Comment", "c", "/* c */", "/**/", "/* a\nb */", "/* ' */")
+		add("Comment", "c", "/* c */", "/**/", "/* a\nb */", "/* ' */", "/*/ c */", "/*/*/", "/***/", "/* boxed **/", "/** doc */")
 		add("Symbol", "s", "+", "-", "*", "/", "%", "^", "(", ")", "[", "]", ",", "<", ">", "=", "<=", ">=", "<>", "!=", "<<", ">>", "!", "&", ";")
 	} else {
-		add("Word", "w", "abc", "a1", "жук", "Éa", "e", "x_y")
+		add("Word", "w", "abc", "a1", "жук", "Éa", "e", "x_y", "Øre", "ñu", "ÿz", "net-price"[:3])
 		add("Integer", "n", "0", "12", "-3")
 		add("Float", "n", "1.5", "-0.5", ".5", "-.25")
 		add("Quoted", "q", "'a'", "\"b c\"", "''", "'é\nж'", "'\"'")
@@ -118,13 +118,23 @@ func (c *Ctx) lexRun() map[string]*simpleVerdict {
 				seq{"-.5", []lexItem{{"-", "Symbol", "s"}, {".5", "Float", "n"}}},
 				seq{"a-3", []lexItem{{"a", "Word", "w"}, {"-", "Symbol", "s"}, {"3", "Integer", "n"}}},
 				seq{"2-1.5e3", []lexItem{{"2", "Integer", "n"}, {"-", "Symbol", "s"}, {"1.5e3", "Float", "n"}}},
-				seq{"+7", []lexItem{{"+", "Symbol", "s"}, {"7", "Integer", "n"}}})
+				seq{"+7", []lexItem{{"+", "Symbol", "s"}, {"7", "Integer", "n"}}},
+				seq{"x.", []lexItem{{"x", "Word", "w"}, {".", "Symbol", "s"}}},
+				seq{"12 .", []lexItem{{"12", "Integer", "n"}, {" ", "Whitespace", " "}, {".", "Symbol", "s"}}},
+				seq{"(x)-.", []lexItem{{"(", "Symbol", "s"}, {"x", "Word", "w"}, {")", "Symbol", "s"}, {"-", "Symbol", "s"}, {".", "Symbol", "s"}}},
+				seq{"5 -", []lexItem{{"5", "Integer", "n"}, {" ", "Whitespace", " "}, {"-", "Symbol", "s"}}},
+				seq{"42٣x", []lexItem{{"42", "Integer", "n"}, {"٣", "Symbol|Unknown", "s"}, {"x", "Word", "w"}}})
 		} else {
 			seqs = append(seqs,
 				seq{"-3", []lexItem{{"-3", "Integer", "n"}}},
 				seq{"-.5", []lexItem{{"-.5", "Float", "n"}}},
 				seq{"a -3", []lexItem{{"a", "Word", "w"}, {" ", "Whitespace", " "}, {"-3", "Integer", "n"}}},
-				seq{"(-1.5)", []lexItem{{"(", "Symbol", "s"}, {"-1.5", "Float", "n"}, {")", "Symbol", "s"}}})
+				seq{"(-1.5)", []lexItem{{"(", "Symbol", "s"}, {"-1.5", "Float", "n"}, {")", "Symbol", "s"}}},
+				seq{"x .", []lexItem{{"x", "Word", "w"}, {" ", "Whitespace", " "}, {".", "Symbol", "s"}}},
+				seq{"5 -", []lexItem{{"5", "Integer", "n"}, {" ", "Whitespace", " "}, {"-", "Symbol", "s"}}},
+				seq{"abc -", []lexItem{{"abc", "Word", "w"}, {" ", "Whitespace", " "}, {"-", "Symbol", "s"}}},
+				seq{"(x)-.", []lexItem{{"(", "Symbol", "s"}, {"x", "Word", "w"}, {")", "Symbol", "s"}, {"-", "Symbol", "s"}, {".", "Symbol", "s"}}},
+				seq{"42 ٣x", []lexItem{{"42", "Integer", "n"}, {" ", "Whitespace", " "}, {"٣x", "Word", "w"}}})
 		}
 		if kind == "generic" {
 			for _, a := range pool {
